@@ -164,8 +164,11 @@ class NonlocalGame:
             num_bob_inputs,
         ) = self.pred_mat.shape
 
-        # Create a copy of pred_mat to avoid in-place modification
+        # Create a (floating point) copy of pred_mat to avoid in-place modification; an integer 0/1 predicate tensor would
+        # otherwise truncate the probability-weighted entries assigned below to zero.
         pred_mat_copy = np.copy(self.pred_mat)
+        if pred_mat_copy.dtype.kind in "iub":
+            pred_mat_copy = pred_mat_copy.astype(float)
 
         for x_alice_in in range(num_alice_inputs):
             for y_bob_in in range(num_bob_inputs):
